@@ -79,6 +79,14 @@ fn allowed(trait_local: bool, args: &[OTy]) -> bool {
 }
 
 fn gen_ty(r: &mut Rng, nparams: usize, d: usize) -> OTy {
+    // towers of fundamental constructors around something local / upstream / a parameter (the rule looks *through* them)
+    if d >= 2 && r.chance(12) {
+        let mut t = gen_ty(r, nparams, 0);
+        for _ in 0..1 + r.below(3) {
+            t = if r.chance(75) { OTy::Adt("Fu", false, true, vec![t]) } else { OTy::Adt("U1", false, false, vec![t]) };
+        }
+        return t;
+    }
     match r.below(if d == 0 { 6 } else { 10 }) {
         0 | 1 if nparams > 0 => OTy::Param(r.below(nparams)),
         0..=2 => OTy::Scalar(["u32", "bool", "i32", "f64", "str"][r.below(5)]),
